@@ -385,6 +385,7 @@ func (r *reader) initNodes(tr io.Reader) error {
 			if ent.Type != "chunk" {
 				var id uint32
 				var b *bolt.Bucket
+				var found bool // the directory already exists (created implicitly or declared before)
 				if ent.Type == "hardlink" {
 					id, err = getIDByName(md, ent.LinkName, r.rootID)
 					if err != nil {
@@ -400,7 +401,6 @@ func (r *reader) initNodes(tr io.Reader) error {
 					}
 				} else {
 					// Write node bucket
-					var found bool
 					if ent.Type == "dir" {
 						// Check if this directory is already created, if so overwrite it.
 						id, err = getIDByName(md, ent.Name, r.rootID)
@@ -433,13 +433,15 @@ func (r *reader) initNodes(tr io.Reader) error {
 					}
 				}
 
-				pdirName := parentDir(ent.Name)
-				pid, pb, err := r.getOrCreateDir(nodes, md, pdirName, r.rootID)
-				if err != nil {
-					return fmt.Errorf("failed to create parent directory %q of %q: %w", pdirName, ent.Name, err)
-				}
-				if err := setChild(md, pb, pid, path.Base(ent.Name), id, ent.Type == "dir"); err != nil {
-					return err
+				if ent.Name != "" { // an entry for the root itself ("./") has no parent to be linked into
+					pdirName := parentDir(ent.Name)
+					pid, pb, err := r.getOrCreateDir(nodes, md, pdirName, r.rootID)
+					if err != nil {
+						return fmt.Errorf("failed to create parent directory %q of %q: %w", pdirName, ent.Name, err)
+					}
+					if err := setChild(md, pb, pid, path.Base(ent.Name), id, ent.Type == "dir" && !found); err != nil {
+						return err
+					}
 				}
 
 				if ent.Offset > 0 && ent.InnerOffset == 0 && len(wantNextOffsetID) > 0 {
